@@ -372,8 +372,25 @@ func injectSites() []Site {
 	}
 }
 
+const trl = "pkg/discovery/translate.go"
+
+// the kvass-specific steps between discovery and the proxied request (C02)
+func chainSites() []Site {
+	return []Site{
+		{Name: "withoutParamAssigns", File: trl, Func: "labelsWithoutConfigParam", Ret: "assigned"},
+		{Name: "withoutParamCalls", File: trl, Func: "labelsWithoutConfigParam", Ret: "calls:types.,append"},
+		{Name: "markInvalidAssigns", File: trl, Func: "supportInvalidLabelName", Ret: "assigned"},
+		{Name: "markInvalidCalls", File: trl, Func: "supportInvalidLabelName", Ret: "calls:model.,append"},
+		{Name: "invalidPrefix", File: "pkg/target/target.go", Sel: "const:PrefixForInvalidLabelName", Ret: "text"},
+		{Name: "translateAssigns", File: "pkg/sidecar/proxy.go", Func: "translateURL", Ret: "assigned"},
+		{Name: "translateCalls", File: "pkg/sidecar/proxy.go", Func: "translateURL", Ret: "calls:vs.,u."},
+		{Name: "shippedLabels", File: trl, Func: "targetsFromGroup", Ret: "calls:supportInvalidLabelName,labelsWithoutConfigParam,targetHash,scrape."},
+	}
+}
+
 func modules() []Module {
 	return []Module{
+		{Path: "Kvass/Gen/Chain.lean", NS: "Kvass.Gen.Chain", Imports: []string{"Kvass.Types"}, Global: map[string]string{}, Sites: chainSites()},
 		{Path: "Kvass/Gen/Inject.lean", NS: "Kvass.Gen.Inject", Imports: []string{"Kvass.Types"}, Global: map[string]string{}, Sites: injectSites()},
 		{Path: "Kvass/Gen/Disc.lean", NS: "Kvass.Gen.Disc", Imports: []string{"Kvass.Types"}, Global: map[string]string{}, Sites: discSites()},
 		{Path: "Kvass/Gen/Proxy.lean", NS: "Kvass.Gen.Proxy", Imports: []string{"Kvass.Types"}, Global: map[string]string{}, Sites: proxySites()},
